@@ -1725,3 +1725,80 @@ func nameTransformedAt(w *World, site *ssa.Call) string {
 	}
 	return ""
 }
+
+// textRewrittenBy: v (a text) is the result of something that rewrites text — a strings/bytes/unicode function, directly
+// or inside the package functions that produced it; "" when it is data seen through conversions, identity helpers and
+// quoting helpers only.
+func textRewrittenBy(w *World, v ssa.Value) string {
+	pr := newProver(w)
+	var trace func(v ssa.Value, d int) string
+	trace = func(v ssa.Value, d int) string {
+		if v == nil || d > 10 {
+			return ""
+		}
+		v = unwrap(v)
+		switch x := v.(type) {
+		case *ssa.Phi:
+			for _, e := range x.Edges {
+				if how := trace(e, d+1); how != "" {
+					return how
+				}
+			}
+			return ""
+		case *ssa.UnOp:
+			if al, ok := x.X.(*ssa.Alloc); ok && x.Op == token.MUL {
+				for _, st := range storesTo(al) {
+					if how := trace(st.Val, d+1); how != "" {
+						return how
+					}
+				}
+			}
+			return ""
+		case *ssa.Call:
+			cal := x.Common().StaticCallee()
+			if cal == nil {
+				return ""
+			}
+			if !w.InPkg(cal) {
+				if cal.Object() != nil && cal.Object().Pkg() != nil {
+					switch cal.Object().Pkg().Path() {
+					case "strings", "bytes", "unicode", "golang.org/x/text/cases":
+						for _, a := range x.Common().Args {
+							if isStringish(a.Type()) || isByteSlice(a.Type()) {
+								return extName(cal)
+							}
+						}
+					}
+				}
+				return ""
+			}
+			sum := symReturns(pr, cal, 0, map[*ssa.Function]bool{})
+			allParam := len(sum) > 0
+			for _, sv := range sum {
+				if sv.kind != "param" {
+					allParam = false
+				}
+			}
+			if allParam {
+				for _, sv := range sum {
+					if sv.param < len(x.Common().Args) {
+						if how := trace(x.Common().Args[sv.param], d+1); how != "" {
+							return how
+						}
+					}
+				}
+				return ""
+			}
+			for _, rb := range returnBlocks(cal) {
+				ret := rb.Instrs[len(rb.Instrs)-1].(*ssa.Return)
+				for _, r := range ret.Results {
+					if how := trace(r, d+1); how != "" {
+						return funcName(cal) + " → " + how
+					}
+				}
+			}
+		}
+		return ""
+	}
+	return trace(v, 0)
+}
